@@ -80,3 +80,78 @@ Definition medianQ (l : list Q) : option Q :=
 
 Definition nanmedian (hits : list (Z * option Q)) : option (option Q) :=
   Some (medianQ (somes (map snd hits))).
+
+(* ==== into_ranges, complete =========================================================
+   The column holds dynamically typed cells; `summary_func` is None (choose by the type
+   of the FIRST element of the source column: str -> join_strings, float -> np.nanmedian,
+   anything else -> first_of), a callable, or any other value (-> make_const(value)).
+
+       if summary_func is None:
+           elem = source[src_col].iat[0]
+           if isinstance(elem, (str, np.string_)):       summary_func = join_strings
+           elif isinstance(elem, (float, np.float64)):   summary_func = np.nanmedian
+           else:                                         summary_func = first_of
+       elif not callable(summary_func):                  summary_func = make_const(summary_func)
+
+   A summary applied to cells of the wrong type fails (None: TypeError), e.g. join_strings
+   on an object column whose first element is a string and a later one is not. *)
+Inductive icell :=
+  | ICStr (s : string)
+  | ICFloat (x : option Q)        (* None = NaN *)
+  | ICInt (z : Z)
+  | ICBool (b : bool).
+
+Inductive isummary :=
+  | ISNone
+  | ISFunc (f : list (Z * icell) -> option icell)
+  | ISConst (v : icell).
+
+Definition cell_str (c : icell) : option string :=
+  match c with ICStr s => Some s | _ => None end.
+
+(* what np.nanmedian sees: floats as they are, integers and booleans as numbers *)
+Definition cell_num (c : icell) : option (option Q) :=
+  match c with
+  | ICFloat x => Some x
+  | ICInt z => Some (Some (inject_Z z))
+  | ICBool b => Some (Some (if b then 1%Q else 0%Q))
+  | ICStr _ => None
+  end.
+
+(* the type default, chosen by the first element of the column *)
+Definition type_default (first : icell) (hits : list (Z * icell)) : option icell :=
+  match first with
+  | ICStr _ =>
+      match all_some (map (fun h => cell_str (snd h)) hits) with
+      | Some ss => Some (ICStr (String.concat RangeDefaults.join_sep (distinct ss)))
+      | None => None
+      end
+  | ICFloat _ =>
+      match all_some (map (fun h => cell_num (snd h)) hits) with
+      | Some xs => Some (ICFloat (medianQ (somes xs)))
+      | None => None
+      end
+  | _ => first_of hits
+  end.
+
+Definition pick_summary (first : icell) (s : isummary) : list (Z * icell) -> option icell :=
+  match s with
+  | ISNone => type_default first
+  | ISFunc f => f
+  | ISConst v => const_of v
+  end.
+
+(* intersect.into_ranges with every kind of summary_func *)
+Definition into_ranges_full (source dest : list trow) (col : Z -> icell) (default : icell)
+  (s : isummary) : option (list (option icell)) :=
+  into_ranges source dest col default
+              (match source with
+               | [] => fun _ => None                       (* never reached: see into_ranges *)
+               | x :: _ => pick_summary (col (r_id (snd x))) s
+               end).
+
+(* GenomicArray.into_ranges: a missing column gives the default for every range *)
+Definition ga_into_ranges (has_column : bool) (source dest : list trow) (col : Z -> icell)
+  (default : icell) (s : isummary) : option (list (option icell)) :=
+  if has_column then into_ranges_full source dest col default s
+  else Some (map (fun _ => Some default) dest).
